@@ -5,7 +5,7 @@
 #    (undone afterwards); 3. stores the mutant under /verif/seeded/<name>/ with the outcome.
 PROP=$1; PATCH=$(readlink -f $2); DEMO=$(readlink -f $3); META=$(readlink -f $4); NAME=$5; shift 5
 CHECKS=${@:-$PROP}
-export GOFLAGS=-mod=mod GOPROXY=off GOEXPERIMENT=synctest
+export GOFLAGS=-mod=mod GOPROXY=off
 W=/dev/shm/verif-mutwt.$$
 git -C /repo worktree prune
 git -C /repo worktree add -q --detach $W HEAD || exit 2
@@ -16,12 +16,13 @@ DIR=$(head -1 $DEMO | sed -n 's,^// place in: *,,p' | tr -d ' \r')
 [ -z "$DIR" ] && DIR=internal/controller
 DEMOFILE=$DIR/zz_seeded_demo_test.go
 mkdir -p $DIR; cp $DEMO $DEMOFILE
+DEMOENV=""; grep -q "testing/synctest" $DEMO && DEMOENV="GOEXPERIMENT=synctest"
 TESTS=$(grep -o '^func Test[A-Za-z0-9_]*' $DEMO | sed 's/func //' | paste -sd'|')
 echo "== demo tests: $TESTS in $DIR"
-go test -vet=off -count=1 -run "^($TESTS)\$" ./$DIR/ > /tmp/evalmut.$$.base 2>&1; BASE=$?
+env $DEMOENV go test -vet=off -count=1 -run "^($TESTS)\$" ./$DIR/ > /tmp/evalmut.$$.base 2>&1; BASE=$?
 git apply $PATCH || { echo "PATCH DOES NOT APPLY"; exit 3; }
 go build ./internal/controller/ ./internal/fans/ ./internal/curves/ ./internal/sensors/ ./internal/util/ ./internal/configuration/ ./internal/persistence/ ./internal/control_loop/ 2>&1 | tail -3
-go test -vet=off -count=1 -run "^($TESTS)\$" ./$DIR/ > /tmp/evalmut.$$.mut 2>&1; MUT=$?
+env $DEMOENV go test -vet=off -count=1 -run "^($TESTS)\$" ./$DIR/ > /tmp/evalmut.$$.mut 2>&1; MUT=$?
 rm -f $DEMOFILE
 go test -vet=off -count=1 ./internal/... 2>&1 | grep -v "^ok\|no test files\|build failed\|gosensors\|sensors.h\|^ *[0-9]* |\|compilation terminated\|#include" > /tmp/evalmut.$$.suite; SUITE=$(grep -c "^--- FAIL\|^FAIL.*[0-9]s$\|^panic" /tmp/evalmut.$$.suite)
 echo "demo on unchanged tree: exit $BASE (want 0); demo with change: exit $MUT (want !=0); existing suite failures with change: $SUITE (want 0)"
